@@ -277,7 +277,7 @@ func runProperty(P *Prog, id, tier, verifDir string, loadSecs float64, extra map
 		"seed":        seed,
 		"level":       "other",
 		"coverage": map[string]interface{}{
-			"explanation":         def.Explanation,
+			"explanation":         def.Explanation + explanationExtra[def.ID],
 			"not_decided":         def.NotDecided,
 			"packages":            len(P.Pkgs),
 			"functions_analysed":  P.NumFuncs,
@@ -326,3 +326,28 @@ func firstLine(s string) string {
 }
 
 func round2(f float64) float64 { return float64(int(f*100)) / 100 }
+
+// explanationExtra: clauses added to a property's checks after the seeded rounds (DESIGN section 8),
+// appended to the explanation in the evidence file.
+var explanationExtra = map[string]string{
+	"C01": " Also decided: the epoch gate (queue then send on every success path at a boundary, never in between); the shared send helper forwards port, channel and data in their roles and arms a block-time based timeout; the consumer applies exactly the genesis validator set (or stores it for a changeover and applies it once); genesis import/export of pending packets; collectors and parameter getters used by these rules are exact; every loop of the functions above visits every element.",
+	"C02": " Also decided: the two same-typed validator lists keep their roles at every call of a function taking both; list indexes are rebuilt whenever the stored list differs positionally (equalStringSlices is exact).",
+	"C03": " Also decided: a present power-shaping section of MsgUpdateConsumer is written on every success path.",
+	"C04": " Also decided: the priority index is rebuilt whenever the stored priority list differs positionally.",
+	"C05": " Also decided: the active-consumer filter and the lookup loop skip no consumer; genesis import writes both indexes in their roles.",
+	"C06": " Also decided: the prune queue key keeps its sortable layout; consumed entries are deleted under their own key; genesis restores the prune queue as exported.",
+	"C07": " Also decided: the minimum evidence height is written only by the branch that binds the client (fresh: initial height; re-used: its latest height).",
+	"C08": " Also decided: the consumer clears the outstanding flag only on an acknowledgement or for a validator new to its set; genesis keeps acknowledgements and flags with their owners.",
+	"C09": " Also decided: the pending-packet index key is big-endian (FIFO read-back); parameter getters return their own parameter; the consumer sends on its recorded channel from its port with the CCV timeout.",
+	"C10": " Also decided: queue keys keep their time-sortable layout; free slots are recomputed per timestamp; the launch driver runs every block; present initialization parameters are written; the previous queue entry is removed before a new one is appended.",
+	"C11": " Also decided: a STOPPED consumer's deletion cannot fail and every cleanup step is unconditional (channel steps excepted); the removal driver puts surplus ids back into its own queue, runs every block, and is not stopped by one failing deletion; bulk deleters delete the visited entries.",
+	"C12": " Also decided: height and id tables keep big-endian keys; genesis import/export keeps every (height, id) pair in its roles and exports every entry.",
+	"C13": " Also decided: no loop-carried variable depending on a consumer id is consumed inside a per-consumer loop; bulk deletions delete the visited entries' own keys; collectors return every entry; each iteration's cache is committed inside the iteration.",
+	"C14": " Also decided: no errorsmod.Wrap/Wrapf in the modules wraps a possibly-nil error (a rejection cannot silently succeed after its effects).",
+	"C15": " Also decided: the M parameter getter returns its own parameter.",
+	"C16": " Also decided: ConsensusValidator records (carrying the eligibility clock) are built only by their constructors or copied whole; a present allow-list section (including the empty list) replaces the stored list; parameter getters of the distribution parameters are exact.",
+	"C17": " Also decided: the client binding is released by every deletion; launches are committed inside their iteration; genesis restores client and channel bindings in their roles.",
+	"C18": " Also decided: maps.Keys/Values results are sorted before any other use.",
+	"C19": " Also decided: commits are immediate calls (never deferred); no error result of a module function or keeper interface is dropped outside a fixed table.",
+	"C20": " Also decided: the equality helpers compare every field; the schedule lookup scans the whole schedule; the schedule key keeps its time-sortable layout; the applier runs every block.",
+}
